@@ -217,6 +217,16 @@ def judge_regions(case, rep, S):
                 where = [locate(pt, poly) for poly in polys]
                 own = where[region - 1] if 1 <= region <= 5 else "out"
                 others_in = [i + 1 for i, w in enumerate(where) if w == "in" and i != region - 1]
+                on_shared_border = own == "on" and sum(1 for w in where if w == "on") >= 2
+                if on_shared_border and lim == (1, 1):
+                    # a marker ON the border two drawn regions share belongs to the one the written rule (C08) names: closed band
+                    # 0.25 <= FCR <= 0.35 for region 2, open |NCPR| < 0.35 for region 3
+                    from .c08 import region_exact
+                    rep.cnt("markers_on_a_border_shared_by_two_regions")
+                    if region != region_exact(a, b, N):
+                        rep.viol("marker_outside_its_region", "(n+,n-,N)=(%d,%d,%d) lies on the border shared by the drawn polygons %r and is assigned region %r; the rule the regions are drawn from gives %r" % (
+                            a, b, N, [i + 1 for i, w in enumerate(where) if w == "on"], region, region_exact(a, b, N)), sig={"shared_border": True})
+                        return
                 if own == "out" or others_in:
                     rep.viol("marker_outside_its_region", "(n+,n-,N)=(%d,%d,%d) is assigned region %r but its point (%s,%s) is %s the drawn polygon %r and inside %r (axis limits %r)" % (
                         a, b, N, region, pt[0], pt[1], "outside" if own == "out" else own, region, others_in, lim),
